@@ -38,7 +38,7 @@ def parent_of(i):
 
 
 def child_of(i, k):
-    return ("+", ("*", ("c", 2), i), ("c", k))
+    return ir.B("+", ir.B("*", ("c", 2), i), ("c", k))
 
 
 def h1(prog, rep):
